@@ -759,6 +759,17 @@ pub fn fuzz_one(data: &[u8], obs: &mut Obs) {
     if list.is_empty() || list.len() > 60 {
         return;
     }
+    // node kinds of the property's quantifier (math, marks, insertions, adjusts and whatsits are `todo!()` in post_line_break)
+    if !list.iter().all(|e| {
+        matches!(
+            e,
+            ds::Horizontal::Char(_) | ds::Horizontal::Ligature(_) | ds::Horizontal::HBox(_) | ds::Horizontal::VBox(_) | ds::Horizontal::Rule(_)
+                | ds::Horizontal::Glue(_) | ds::Horizontal::Kern(_) | ds::Horizontal::Penalty(_) | ds::Horizontal::Discretionary(_)
+        )
+    }) {
+        obs.skip("fuzz:node-kind-outside-the-quantifier");
+        return;
+    }
     for (i, e) in list.iter().enumerate() {
         if let ds::Horizontal::Discretionary(d) = e {
             let r = d.replace_count as usize;
